@@ -94,6 +94,70 @@ def run_vertex_count(chk, F):
             key='E2n|%s|vertex-count|%s' % (f['name'], rel(f['file']).split('/')[-1]))
 
 
+def run_threshold_siblings(chk, F):
+    """E7-threshold-siblings: the proximity graph keeps the pairs at distance *at most* the threshold. Every
+    implementation of compute_proximity_graph (the free function of graph_simplicial_complex.h and the builders of
+    Rips_complex) compares the distance with `threshold` with the same operator: one `<` among `<=` makes the routes
+    disagree on the pairs exactly at the threshold."""
+    fs = [f for f in F.functions if f['name'].split('<')[0] == 'compute_proximity_graph' and f.get('inst') in (0, 2) and
+          f.get('body') is not None]
+    tests = []
+    for f in fs:
+        for x in ir.walk(f['body']):
+            if x.get('k') in ('BinaryOperator', 'CXXOperatorCallExpr') and x.get('op') in ('<', '<=', '>', '>=') and \
+                    'threshold' in ir.show(x):
+                c = (x.get('c') or [])[-2:]
+                lhs_thr = 'threshold' in ir.show(c[0])
+                op = x['op'] if not lhs_thr else {'<': '>', '<=': '>=', '>': '<', '>=': '<='}[x['op']]
+                tests.append((f, x, op))
+    if len(tests) < 2:
+        raise AnalysisBroken('C04: fewer than two threshold tests found in the proximity-graph builders (%d)' % len(tests))
+    ops = {t[2] for t in tests}
+    for f, x, op in tests:
+        ok = op == '<='
+        chk.ob('E7-threshold-siblings', '%s (%s): a pair is kept when its distance is <= threshold' % (
+            f['name'].split('<')[0], rel(f['file']).split('/')[-1]), '%s:%s' % (rel(f['file']), x.get('l')), ok,
+            '' if ok else '`%s`: this builder drops the pairs exactly at the threshold, its siblings (%s) keep them'
+            % (ir.show(x)[:40], sorted(ops - {op}) or 'none'),
+            key='E7|compute_proximity_graph|threshold|%s' % rel(f['file']).split('/')[-1])
+
+
+def run_blocker_value_seed(chk, F):
+    """E10-candidate-value: in siblings_expansion_with_blockers the candidate [P, s, next] gets the largest value of its
+    facets: the loop over `boundary_simplex_range(s)` looks up the facets [d(P s), next], which leaves out the facet
+    [P, s] itself - the accumulator starts from the value of `s`, the simplex whose boundary is walked (starting from
+    `next` counts [P, next] twice and [P, s] never: a triangle whose heaviest edge joins its two smallest vertices gets
+    a value below that edge, and the route disagrees with expansion())."""
+    fs = [f for f in F.funcs('siblings_expansion_with_blockers', cls='Simplex_tree', unit='st_pat')
+          if f['inst'] in (0, 2) and f.get('body') is not None]
+    if not fs:
+        raise AnalysisBroken('C04: siblings_expansion_with_blockers not found')
+    f = fs[0]
+    n = 0
+    for lp in ir.walk(f['body']):
+        if lp.get('k') != 'CXXForRangeStmt' or 'boundary_simplex_range' not in ir.show(lp.get('range')):
+            continue
+        walked = re.search(r'boundary_simplex_range\((\w+)\)', ir.show(lp.get('range')))
+        acc = [a for x in ir.walk(lp.get('body')) if ir.is_call(x) and ir.call_name(x) in ('intersect_lifetimes',
+               'unify_lifetimes', 'max') for a in ir.call_args(x)[:1]]
+        if not walked or not acc:
+            continue
+        name = ir.show(acc[0])
+        decl = [x for x in ir.walk(f['body']) if x.get('k') == 'VarDecl' and x.get('n') == name and
+                x.get('init') is not None]
+        if not decl:
+            continue
+        n += 1
+        src = re.match(r'\(?(\w+)->second\.filtration\(\)', ir.show(decl[-1]['init']).replace('this->', ''))
+        ok = src is not None and src.group(1) == walked.group(1)
+        chk.ob('E10-candidate-value', 'siblings_expansion_with_blockers: the value accumulated over the boundary of `%s` '
+               'starts from the value of `%s`' % (walked.group(1), walked.group(1)), '%s:%s' % (rel(f['file']),
+               decl[-1].get('l')), ok, '' if ok else '`%s` starts from `%s`: the facet `%s` of the candidate is never '
+               'taken into the maximum' % (name, ir.show(decl[-1]['init'])[:40], walked.group(1)),
+               key='E10|siblings_expansion_with_blockers|candidate-value')
+    chk.expect_count('E10-candidate-value', 'value accumulations over a boundary in the blocker route', n, 1)
+
+
 def run_graph_values(chk, F):
     """insert_graph takes the value of every vertex from the graph's vertex property and of every edge from its edge
     property: both property reads flow into the creation of the corresponding nodes"""
@@ -396,6 +460,8 @@ def run(tier, replay=None):
                '' if bad_extra is None else 'push at line %s without a preceding creation on the path'
                % bad_extra[1].get('l'), key='E2n|%s|extra' % f['name'])
     run_vertex_count(chk, F)
+    run_threshold_siblings(chk, F)
+    run_blocker_value_seed(chk, F)
     run_graph_values(chk, F)
     run_announced_removals(chk, fns)
     # the incremental route finds cofaces through the per-label node lists: every node the expansion routes create
